@@ -66,7 +66,7 @@ func isPrefix(got, of []*gen.Msg) (bool, string) {
 }
 
 func c04(run *ev.Run) int {
-	run.SetRule("faults = every cut offset k in [0,len(body)] of every recorded valid response and request body (3 protocols x codecs x 4 kinds x {0,1,3} messages x {ok,error} x gzip on/off) x ending {clean EOF, unexpected EOF, transport error} x HTTP trailers {present, absent} x receiver read limit {none, 1 MiB, MaxInt}; plus failure of the j-th ResponseWriter.Write for every j, and a client transport whose Do fails after j request-body reads with {an opaque error, an error wrapping io.EOF, one wrapping io.ErrUnexpectedEOF}; also endings context.Canceled / context.DeadlineExceeded (frame boundaries, full length, every fourth offset); history: an ordinary unary call after a failed and closed streaming call through a transport with one connection per host; oracle: success only when the terminator arrived, otherwise coded error, delivered is a prefix of sent, no hang/panic; distinct by (body, fault class: position relative to frame boundary, ending, trailers)")
+	run.SetRule("faults = every cut offset k in [0,len(body)] of every recorded valid response and request body (3 protocols x codecs x 4 kinds x {0,1,3} messages x {ok,error} x gzip on/off) x ending {clean EOF, unexpected EOF, transport error} x HTTP trailers {present, absent} x receiver read limit {none, 1 MiB, MaxInt}; plus failure of the j-th ResponseWriter.Write for every j, and a client transport whose Do fails after j request-body reads with {an opaque error, an error wrapping io.EOF, one wrapping io.ErrUnexpectedEOF}; also endings context.Canceled / context.DeadlineExceeded (frame boundaries, full length, every fourth offset); history: an ordinary unary call after a failed and closed streaming call through a transport with one connection per host; oracle: success only when the terminator arrived, otherwise coded error, delivered is a prefix of sent, no hang/panic; distinct by (body, fault class: position relative to frame boundary, ending, trailers); gRPC responses whose status trailers were announced (keys with nil values in Response.Trailer) but never arrived, at every frame boundary")
 	run.Assume("clean-EOF truncation of a unary Connect 200 body is observationally indistinguishable and excluded")
 	spec := corpusSpec{protos: svc.Protocols, codecs: []string{"proto"}, kinds: svc.Kinds, gzips: []bool{false, true},
 		counts: []int{0, 1, 3}, scenarios: []string{"ok", "err"}}
